@@ -134,6 +134,19 @@ func c11Cases(c *Ctx) []c11Case {
 		_, fw, fh, fq := fibImage(c11Codecs[ci].codec == "ext12")
 		add(ci, fw, fh, fq, "fib")
 	}
+	// (3c) sparse coefficient patterns: single DCT basis functions (all 63 AC positions in one
+	// 64x64 image), pairs with row/column 7, row- and column-constant 8-periodic stripes; at
+	// the qualities where the bound is tight; several seeds = several amplitudes / DC levels
+	for ci := range c11Codecs {
+		for _, content := range []string{"basis", "basis2", "rowstripes", "colstripes"} {
+			for _, q := range []int{100, 95, 75} {
+				for rep := 0; rep < c.N(3, 12); rep++ {
+					add(ci, 64, 64, q, content)
+				}
+				add(ci, rng.Range(9, 80), rng.Range(9, 80), q, content)
+			}
+		}
+	}
 	// (4) larger images (up to 512); 65535-wide strips only in thorough
 	big := [][2]int{{64, 64}, {100, 75}, {256, 256}, {255, 257}, {512, 3}, {3, 512}}
 	if c.Thor {
